@@ -1,7 +1,7 @@
 """C13 - agent queries are exact filters; random picks stay within the filter."""
 from hypothesis import strategies as st
 
-from ECAgent.Core import Agent, Model
+from ECAgent.Core import Agent, Environment, Model
 from ECAgent.Environments import GridWorld
 from vf.engine import Violation, InvalidCase
 from vf.fixtures import CompA, CompB, CompC, CompD, CompF, check, sized_lists, wone_of
@@ -19,6 +19,13 @@ RULE = ("Population histories (add with component subset of {A,B,F} - F has fals
         "digest of the case.")
 ASSUMPTIONS = ["reachability uses N = 60*k draws: the probability that a fair pick misses one of k <= 8 candidates is < 1e-24, and the "
                "outcome is a deterministic function of the generated model seed"]
+
+class CrowdAgent(Agent):
+    """an agent class that defines its own length (like Environment, which is an Agent whose len() is its population)"""
+
+    def __len__(self):
+        return 0
+
 
 TYPES = [CompA, CompB, CompF, CompD]     # CompF instances are falsy; nobody has CompD
 
@@ -39,7 +46,17 @@ def run_case(case):
             if len(pop) >= 8:
                 continue
             mask, tag = int(op["mask"]) % 8, op.get("tag")
-            a = Agent(f"g{n_created}", model) if tag is None else Agent(f"g{n_created}", model, tag=int(tag))
+            akind = op.get("akind", "agent")
+            if akind == "nested-env" and not grid:
+                a = Environment(model, id=f"g{n_created}")          # environments are agents too; len() == 0 (no members)
+                if tag is not None:
+                    a.tag = int(tag)
+                labels.add("nested-environment-member")
+            elif akind == "crowd":
+                a = CrowdAgent(f"g{n_created}", model) if tag is None else CrowdAgent(f"g{n_created}", model, tag=int(tag))
+                labels.add("own-len-member")
+            else:
+                a = Agent(f"g{n_created}", model) if tag is None else Agent(f"g{n_created}", model, tag=int(tag))
             n_created += 1
             for i in range(3):
                 if mask >> i & 1:
@@ -145,7 +162,8 @@ def run_case(case):
 
 
 def strategy(tier):
-    add = st.fixed_dictionaries({"op": st.just("add"), "mask": st.integers(0, 7), "tag": st.sampled_from([None, 0, 1, 1, 2, 7])})
+    add = st.fixed_dictionaries({"op": st.just("add"), "mask": st.integers(0, 7), "tag": st.sampled_from([None, 0, 1, 1, 2, 7]),
+                                 "akind": st.sampled_from(["agent", "agent", "agent", "agent", "nested-env", "crowd"])})
     rem = st.fixed_dictionaries({"op": st.just("remove"), "k": st.integers(0, 7)})
     retag = st.fixed_dictionaries({"op": st.just("retag"), "k": st.integers(0, 7), "tag": st.sampled_from([0, 1, 2, 7])})
     toggle = st.fixed_dictionaries({"op": st.just("toggle"), "k": st.integers(0, 7), "t": st.integers(0, 2)})
